@@ -34,6 +34,20 @@ def total_wrap(ev, tdef: P, tatom: P):
     """t = fmod(x, 1); t[t < 0] += 1; t[t >= 1] = 0   ->  x  (a wrap into [0,1) that is right for every finite x), else None."""
     from ..symex import obj_init
     init = obj_init(tdef).as_atom()
+    # the same three steps written out of place:  b = fmod(x, 1); a = where(b < 0, b + 1, b); t = where(a >= 1, 0, a)
+    if init and init[0] == "call" and call_name(init) == "numpy.where" and len(init[2]) == 3:
+        def resolve(t):
+            ta = t.as_atom()
+            return ev.defs.get(ta, t) if ta and ta[0] == "local" else t
+        c2, z, a_ = init[2]
+        a_r = resolve(a_).as_atom()
+        if z == P.const(0) and c2.key() == f"(le 1 {a_})" and a_r and a_r[0] == "call" and call_name(a_r) == "numpy.where" and len(a_r[2]) == 3:
+            c1, up_, b_ = a_r[2]
+            b_r = resolve(b_).as_atom()
+            if c1.key() == f"(lt {b_} 0)" and up_ == b_ + 1 and a_r[2][2].key() == b_.key() and b_r and b_r[0] == "call" \
+                    and call_name(b_r) == "numpy.fmod" and len(b_r[2]) == 2 and b_r[2][1] == P.const(1):
+                return b_r[2][0]
+        return None
     if not (init and init[0] == "call" and call_name(init) in ("numpy.fmod",) and len(init[2]) == 2 and init[2][1] == P.const(1)):
         return None
     x = init[2][0]
@@ -100,6 +114,22 @@ def _identity_search(u: P, ops_keys):
     return len(conds) == 1 and conds[0].key() in (f"(eq {op}.integer_code {M.IDENTITY})", f"(eq {M.IDENTITY} {op}.integer_code)", f"{op}.is_identity()")
 
 
+def _found_or_first(u: P):
+    """u is what a search loop left behind, or 0 / None on the ways that found nothing: every leaf of the ite tree is the loop's
+    result variable, the constant 0, or None (tested away); no arithmetic on the index."""
+    leaves, todo = [], [u]
+    while todo:
+        t = todo.pop()
+        a = t.as_atom()
+        if a and a[0] == "ite":
+            todo.extend((a[2], a[3]))
+        else:
+            leaves.append(t)
+    afters = {t.key() for t in leaves if t.as_atom() and t.as_atom()[0] == "after"}
+    rest = [t for t in leaves if not (t.as_atom() and t.as_atom()[0] == "after")]
+    return len(afters) == 1 and all(t.key() in ("0", "None") for t in rest)
+
+
 def _identity_first_partition(ev, ops_key="self.symmetry_operations"):
     """other = ops[:u] + ops[u+1:] with u located by the identity test -> (ok, detail)."""
     ops_keys = {ops_key} | {str(P.atom(k)) for k, v in ev.defs.items() if k[0] == "local" and v.key() == ops_key}
@@ -122,7 +152,7 @@ def _identity_first_partition(ev, ops_key="self.symmetry_operations"):
             u = heads[0][1]
             searched = _identity_search(u, ops_keys)
             oku = oku or searched
-            okpart = tails[0][0] == u + 1 and (searched or (u.as_atom() is not None and u.as_atom()[0] == "after" and u.as_atom()[1] == "unity"))
+            okpart = tails[0][0] == u + 1 and (searched or _found_or_first(u))
     return oku, okpart, [(str(a)[:80], str(b)[:80]) for a, b in sl]
 
 
@@ -440,8 +470,11 @@ def r01_234(chk, cr):
                 return inner
             return None
         want_base = {
-            "asym_atom": lambda b: b.as_atom() and b.as_atom()[0] == "bin" and b.as_atom()[1] == "Mod" and b.as_atom()[3].key() == natom.key()
-            and call_name(b.as_atom()[2].as_atom() or ()) == "numpy.arange",
+            # arange(nsym * natom) % natom, or the same thing spelt tile(arange(natom), nsym)
+            "asym_atom": lambda b: b.as_atom() and ((b.as_atom()[0] == "bin" and b.as_atom()[1] == "Mod" and b.as_atom()[3].key() == natom.key()
+                                                    and call_name(b.as_atom()[2].as_atom() or ()) == "numpy.arange")
+                                                   or (call_name(b.as_atom()) == "numpy.tile" and len(b.as_atom()[2]) == 2
+                                                       and b.as_atom()[2][0].key() == f"numpy.arange({natom})" and b.as_atom()[2][1].key() == nsym.key())),
             "element": lambda b: call_name(b.as_atom() or ()) == "numpy.tile" and b.as_atom()[2][0].key() in ("self.site_atoms", "self.asymmetric_unit.atomic_numbers")
             and b.as_atom()[2][1].key() == nsym.key(),
             "label": lambda b: call_name(b.as_atom() or ()) == "numpy.tile" and b.as_atom()[2][0].key() in ("self.asymmetric_unit.labels", "self.site_labels")
